@@ -104,6 +104,7 @@ class CB:
                     t = facts.bodies.get(d)
                     if self._is_circuit_method(t):
                         roles.setdefault(t.def_, nm)
+        self._lift_transition()
         if self.transition is not None:
             recs = {d for d, r in roles.items() if r.startswith("record_")}
             for cs in tr.callers(self.transition.def_):
@@ -111,8 +112,35 @@ class CB:
                 if b.def_ in roles or not self._is_circuit_method(b):
                     continue
                 callers = {c.g.b.def_ for c in tr.callers(b.def_)}
-                if callers and callers <= recs:
+                # the window evaluation trips the breaker (-> Open); a helper of a recorder that makes another
+                # transition (e.g. an extracted half-open closing step) is part of that recorder
+                tgts = {tgt for (b_, _cs, tgt) in self.transition_calls() if b_ is b}
+                if callers and callers <= recs and tgts == {"Open"}:
                     roles[b.def_] = "evaluate"
+
+    def _lift_transition(self):
+        """the transition function is the outermost circuit method through which every write of the state goes: a
+        state-writing helper with a single calling function (`enter_state` called only by `transition_to`, or one
+        helper per target state) is part of that caller"""
+        facts, tr = self.facts, self.tr
+        S = {w[0].def_ for w in self.state_writes}
+        for _round in range(4):
+            changed = False
+            for d in sorted(S):
+                callers = {c.g.b.def_ for c in tr.callers(d)}
+                if len(callers) != 1:
+                    continue
+                q = next(iter(callers))
+                qb = facts.bodies.get(q)
+                if q == d or q in self.roles or not self._is_circuit_method(qb) or qb.kind != "fn":
+                    continue
+                S.discard(d)
+                S.add(q)
+                changed = True
+            if not changed:
+                break
+        if len(S) == 1:
+            self.transition = facts.bodies.get(next(iter(S)))
 
     def role(self, body):
         return self.roles.get(body.def_) or body.def_.split("::")[-1]
@@ -201,6 +229,28 @@ class CB:
                     tgt = n[1]
             out.append((b, cs, tgt))
         return out
+
+
+class _Quiet:
+    def __getattr__(self, _n):
+        return lambda *a, **k: None
+
+
+def cb_view(facts, tr, rep):
+    """(cb, facts, tr) on the view the breaker's rules run on: the circuit's role functions (admission, recorders,
+    force_*/reset, evaluation, transition — found by what they do on the program as written) stay calls, every other
+    private helper is inlined into them and into the services, so it does not matter how the steps of a role are
+    factored into helper methods"""
+    from ..inline import view_of
+    cb0 = CB(facts.shallow, tr.shallow, _Quiet())
+    if not cb0.ok or cb0.admission is None:
+        f, t = facts.shallow, tr.shallow
+        return CB(f, t, rep), f, t
+    keep = set(cb0.roles)
+    if cb0.transition is not None:
+        keep.add(cb0.transition.def_)
+    f, t = view_of(facts, keep)
+    return CB(f, t, rep), f, t
 
 
 def check_no_evict_in_half_open(cb, rep, rule):
@@ -308,10 +358,25 @@ def check_stats_partition(cb, rep, rule):
         if F.kind != "fn" or not cb._is_circuit_method(F) or not F.local_ty(0)["s"].startswith("(usize"):
             continue
         g = graph(F)
-        if not any(c.name == "next" for c in g.calls()):
+        if not any(c.name in ("next", "count", "fold", "sum") for c in g.calls()):
             continue
         rep.saw(F)
         guards = {}
+        # counters written as `records.iter().filter(|r| <flags>).count()`: the guard set is what the closure demands
+        totals = set()
+        for c in g.calls():
+            if c.name == "len" and c.args and not c.dest["p"]:
+                totals.add(c.dest["l"])
+            if c.name != "count" or not c.args or c.dest["p"]:
+                continue
+            src = peel(tr.expand(tr.operand(F, c.args[0], c.loc)))
+            if src[0] != "call" or tr.call_of(src).name != "filter" or len(tr.call_of(src).args) < 2:
+                continue
+            fc = tr.call_of(src)
+            clo = peel(tr.expand(tr.operand(F, fc.args[1], fc.loc)))
+            gs = _closure_flag_guards(tr, clo)
+            if gs is not None:
+                guards.setdefault(c.dest["l"], []).append((gs, c.where()))
         for i, blk in enumerate(F.blocks):
             for j, s_ in enumerate(blk["stmts"]):
                 if s_["k"] != "assign" or s_["lhs"]["p"]:
@@ -340,5 +405,69 @@ def check_stats_partition(cb, rep, rule):
                                "the counter of records without `%s` is further restricted by %s: records that are neither counted as "
                                "`%s` nor here vanish from the statistics (e.g. slow successes no longer close a half-open breaker)"
                                % (f, sorted(extra), f))
+        # ... or the complement is obtained by subtraction: `total - failures` with total = records.len()
+        for i, blk in enumerate(F.blocks):
+            for j, s_ in enumerate(blk["stmts"]):
+                if s_["k"] != "assign" or s_["lhs"]["p"]:
+                    continue
+                rv = s_["rv"]
+                if rv["k"] != "binop" or not rv["op"].startswith("Sub"):
+                    continue
+                la = (rv["a"].get("copy") or rv["a"].get("move") or {})
+                lb = (rv["b"].get("copy") or rv["b"].get("move") or {})
+                if la.get("p") or lb.get("p") or la.get("l") is None or lb.get("l") is None:
+                    continue
+                a_src = {d[1] for d in g.reaching(la["l"], (i, j))}
+                is_total = any(not d[4] and d[3] == "call" and Call(g, d[1], g.term(d[1])).name == "len" for d in g.reaching(la["l"], (i, j))) or la["l"] in totals
+                # follow one copy
+                for d in g.reaching(la["l"], (i, j)):
+                    if d[3] == "assign" and d[5]["k"] == "use":
+                        s2 = d[5]["op"].get("copy") or d[5]["op"].get("move")
+                        if s2 and not s2["p"] and s2["l"] in totals:
+                            is_total = True
+                cnt = lb["l"]
+                for d in g.reaching(lb["l"], (i, j)):
+                    if d[3] == "assign" and d[5]["k"] == "use":
+                        s2 = d[5]["op"].get("copy") or d[5]["op"].get("move")
+                        if s2 and not s2["p"] and s2["l"] in guards:
+                            cnt = s2["l"]
+                if is_total and cnt in guards and all(len(gs2) == 1 and next(iter(gs2))[1] == "true" for (gs2, _w) in guards[cnt]):
+                    f = next(iter(guards[cnt][0][0]))[0]
+                    n += 1
+                    rep.ob(rule, skey(F, "complement-of.%s" % f), True, g.where(i, j),
+                           "the counter of records without `%s` is the number of records minus those with it: it counts all of them" % f)
     rep.floor(rule + ".complements", n, 1)
     return n
+
+
+def _closure_flag_guards(tr, clo):
+    """{(flag field, 'true'|'false')} a record must satisfy for the filter closure `clo` to keep it; None when the
+    closure is not a conjunction of flag tests"""
+    if clo[0] != "agg":
+        return None
+    _b, rv = tr.agg_of(clo)
+    if rv.get("ak") != "closure":
+        return None
+    cb_ = tr.facts.bodies.get(rv["def"])
+    if cb_ is None:
+        return None
+    keep = []
+    for (i, j, node) in ret_assigns(tr, cb_):
+        for lf in leaves(node):
+            lf = peel(lf)
+            if lf[0] == "const" and lf[1] == "false":
+                continue
+            gs = set()
+            for e in dominating_edges(tr, cb_, i):
+                if e["kind"] == "bool" and e["node"][0] == "field" and isinstance(e["node"][2], str) and "via" not in e:
+                    gs.add((e["node"][2], e["label"]))
+            neg = False
+            while lf[0] == "unop" and lf[1] == "Not":
+                neg = not neg
+                lf = peel(lf[2])
+            if lf[0] == "field" and isinstance(lf[2], str):
+                gs.add((lf[2], "false" if neg else "true"))
+            elif not (lf[0] == "const" and lf[1] == "true"):
+                return None
+            keep.append(gs)
+    return keep[0] if len(keep) == 1 else None
